@@ -51,7 +51,7 @@ package errutil
 //@   props C10 C07 C03
 //@   requires[C03] safeS(format)
 //@   ensures err == nil ==> result == nil
-//@   ensures err != nil ==> typeis(result, *withPrefix) && result.(*withPrefix).cause == err
+//@   ensures err != nil ==> typeis(result, *withPrefix) && result.(*withPrefix).cause == err && result.(*withPrefix).prefix == rSprintf(format, args)
 
 //@ type leafError invariant[C03] rsafe(self.msg)
 //@ type withPrefix invariant[C03] rsafe(self.prefix)
